@@ -43,6 +43,7 @@ type PhaseSpec struct {
 	Runs  uint64
 	Race  bool   // needs the -race binary
 	Sweep bool   // systematic: run i uses the forced tape prefix SweepPrefix(i)
+	Cold  bool   // one fresh worker process per run
 	Note  string // shown in evidence
 }
 
